@@ -128,6 +128,12 @@ pub fn run(ctx: &mut Ctx, replay: Option<&str>) {
                 _ => gen_leaf(&mut r, false),
             };
             plant(&mut bad.claims, &at, name, val, &mut r);
+            // now and then the same object carries BOTH reserved names (or one of them twice over, in a sibling object too)
+            if r.chance(1, 5) {
+                let other = if name == "_sd" { "..." } else { "_sd" };
+                plant(&mut bad.claims, &at, other, json!(["second-reserved-name"]), &mut r);
+                ctx.count("planted.both_names_in_one_object");
+            }
             ctx.count(&format!("planted.{}.depth{}", name, match at.len() { 0..=4 => at.len().to_string(), 5..=16 => "5-16".to_string(), _ => "17+".to_string() }));
             cases.push((bad, true));
             cases.push((control, false));
@@ -145,6 +151,12 @@ pub fn run(ctx: &mut Ctx, replay: Option<&str>) {
                 plant(&mut bad, at, if k % 2 == 0 { "_sd" } else { "..." }, json!("user-data"), &mut r);
                 let st = match k % 4 { 0 => Strategy::All, 1 => Strategy::Top, 2 => Strategy::Custom(paths.clone()), _ => Strategy::None };
                 cases.push((IssueArgs { claims: bad, strategy: st.clone(), holder: None, decoy: k % 2 == 1, fmt: if k % 3 == 0 { Fmt::Json } else { Fmt::Compact }, key: crate::keys::KeyId::IssuerEc, alg: None, queue: None }, true));
+                if k % 3 == 2 {
+                    let mut both = claims.clone();
+                    plant(&mut both, at, "_sd", json!("user-data"), &mut r);
+                    plant(&mut both, at, "...", json!("user-data"), &mut r);
+                    cases.push((IssueArgs { claims: both, strategy: st.clone(), holder: None, decoy: false, fmt: Fmt::Compact, key: crate::keys::KeyId::IssuerEc, alg: None, queue: None }, true));
+                }
                 if k == 0 {
                     cases.push((IssueArgs { claims: claims.clone(), strategy: st, holder: None, decoy: false, fmt: Fmt::Compact, key: crate::keys::KeyId::IssuerEc, alg: None, queue: None }, false));
                 }
